@@ -269,6 +269,12 @@ impl<'a> Model<'a> {
             self.v("stream_response_over_limit", &["C15"], format!("StreamingPull(max_outstanding_messages={}) response on {} carries {} messages", max_out, sub, recvs.len()));
         }
         self.deliveries(&sub, recvs, lo_idx, true, call);
+        if self.streams.get(&call).map(|s| s.sub_inst.is_none()).unwrap_or(false) {
+            if let Some(i) = self.cur_sub(&sub) {
+                self.streams.get_mut(&call).unwrap().sub_inst = Some(i);
+                self.subs[i].consumers.insert(call);
+            }
+        }
         let idx = self.idx;
         if let Some(s) = self.streams.get_mut(&call) {
             s.last_msg_idx = idx;
